@@ -133,6 +133,9 @@ func (p *propC05) Gen(idx int) *Scenario {
 	}
 	sc := &Scenario{V: 1, Property: "C05", Engine: "pipe", Seed: p.seed, Index: idx,
 		Tasks: []Task{{ID: 0, Call: "Encode", File: mf, Arch: arch}}}
+	if idx%16 == 7 {
+		sc.Tasks[0].Sink = "buffer" // a *bytes.Buffer instead of the simulated writer
+	}
 	if r.Chance(1, 8) {
 		// a failing Encode first (sink that fails at its n-th Write, or a File with a
 		// string that is not UTF-8): whatever it leaves behind must not reach the
